@@ -19,6 +19,7 @@
 -/
 import DDProofs.SwapDrivers
 import DDProofs.GcExample
+import DD.Ops
 open Std
 
 namespace DD
@@ -177,18 +178,45 @@ theorem C07_sift_partial (ext : Nat → Nat) (m m' : Mgr) (h : ReorderInv ext m)
   show mg.tbl.succ.size + 1 ≤ m.tbl.succ.size + 1
   omega
 
-/-- C07, the clause that is NOT proved: sifting always returns normally, i.e. the internal
-assertions of `_reorder_var` (`sizes[k] == len(bdd)` after shifting back to the best level, and
-`m_ <= m`) and the final `m <= n` of `_apply_sifting` can never fire.  What is missing: "the number
-of nodes after a swap is a function of the variable order and the set of held references only"
-(from `canonical` + `gc` exactness: the node set is the set of reachable subfunctions), so that
-returning to a level visited before reproduces the recorded size.  All other failure modes are
-excluded by the proved theorems above (every `swap`/`_shift` inside returns normally and keeps
-`ReorderInv`).  Covered by correspondence only (check C07: every variable schedule = every hash
-seed on the generated histories). -/
+/-- C07 (sifting, all outcomes): with at least two variables, for every schedule, `reorder(bdd)`
+either returns normally (then `C07_sift_partial` applies), or the model reports a schedule
+mismatch, or one of the size assertions of the sifting code (`sizes[k] == len(bdd)`,
+`m_ <= m` in `_reorder_var`, `m <= n` in `_apply_sifting`, or `_shift`'s range check on the selected
+level) raises `AssertionError`.  No `KeyError`, `ValueError`, … can occur, and no assertion
+inside `swap`. -/
+theorem C07_sift_outcome (ext : Nat → Nat) (m : Mgr) (h : ReorderInv ext m) (h2 : 2 ≤ m.nvars) :
+    OkSchedAssert (fun _ m' => ReorderInv ext m' ∧ HeldSame ext m m') (reorder none m) :=
+  applySifting_outcome (siftEnv ext) m h h2
+
+/-- C07, the clause that is NOT proved: sifting always returns normally, i.e. the size
+assertions named in `C07_sift_outcome` can never fire.  What is missing: "the number of nodes
+after a swap is a function of the variable order and the set of held references only" (from
+`canonical` + exactness of the collections: the node set is the set of reachable subfunctions),
+so that returning to a level visited before reproduces the recorded size, and the recorded
+sizes include the size at the starting level.  Every other failure mode is excluded by
+`C07_sift_outcome`.  Covered by correspondence only (check C07: every variable schedule = every
+hash seed on the generated histories).  The hypothesis `2 ≤ nvars` is necessary:
+`sift_single_variable_raises`. -/
 def sift_never_asserts_statement : Prop :=
-  ∀ (ext : Nat → Nat) (m : Mgr), ReorderInv ext m → 0 < m.nvars →
+  ∀ (ext : Nat → Nat) (m : Mgr), ReorderInv ext m → 2 ≤ m.nvars →
     OkOrSched (fun _ _ => True) (reorder none m)
+
+/-- the exception raised, if any -/
+def errOf {α} : Except Err α → Option Err
+  | .error e => some e
+  | .ok _ => none
+
+/-- a manager with exactly one declared variable and no node -/
+def exOneVar : Mgr := ((addVar "x" none : M Nat) {}).2
+
+/-- FINDING (real code: `b = BDD(); b.declare('x'); dd.bdd.reorder(b)` raises
+`ValueError: min() iterable argument is empty`): with exactly one variable `_reorder_var` calls
+`min` on an empty `sizes` dict.  (With no variable at all `_apply_sifting` raises
+`UnboundLocalError`.)  The model mirrors both. -/
+theorem sift_single_variable_raises :
+    exOneVar.nvars = 1 ∧ errOf (reorder none exOneVar).1 = some .value ∧
+    errOf (reorder none ({} : Mgr)).1 = some .other := by
+  decide
 
 /-! ### non-vacuity
 
